@@ -21,3 +21,5 @@ var round8Explanations = map[string]string{
 	"C18": " (W10) in the methods of the M* HTTP/2 connection types, after a call that reaches hpack Encoder.WriteField every path to a return passes a HEADERS/CONTINUATION write, except along that call's error edge or where the block was tested empty.",
 	"C19": " (R9) no map update or delete in pkg/filter/stream hits a map reached from RouteRule().PerFilterConfig() or a ReadPerRouteConfig parameter.",
 }
+
+const genericExplanation = " (G1-G3, generic, over the packages of this property) no address of a go-1.18 loop-header variable escapes its iteration; every sync mutex acquired in a function is released on every path to its return, directly or by a defer registered on that path (read and write acquisitions distinct, wrapper table frozen); a struct field passed to sync/atomic anywhere in scope is never read or written plainly outside construction (24 frozen exceptions, keyed type.field@function)."
